@@ -69,7 +69,7 @@ def run(t):
         r = run_tlc(mod, cfg, timeout=900, want_beh=False)
         tlc_must_pass(r, cfg)
         run.add_tlc(r, cfg)
-    negs = [("Relic_MC", "Relic_Neg_CloseTokensFirst.cfg"), ("Relic_MC", "Relic_Neg_CacheByToken.cfg"),
+    negs = [("Relic_MC", "Relic_Neg_CloseTokensFirst.cfg"), ("Relic_MC", "Relic_Neg_CacheByToken.cfg"), ("Relic_MC", "Relic_Neg_ServeReturnsEarly.cfg"),
             ("TokenCache_MC", "TokenCache_Neg_NoMutex.cfg"), ("AuditLog_MC", "AuditLog_TwoWrites.cfg")]
     for mod, cfg in negs:
         tlc_must_fail(run_tlc(mod, cfg, timeout=300, want_beh=False, workers=4), cfg)
@@ -94,6 +94,22 @@ def run(t):
                 futs[label] = ex.submit(lambda a=args, l=label, tr=tr, s=env_seed: race_run_seeded(run, vhr, a, l, d, tr, s))
             for label, f in futs.items():
                 results[label] = f.result()
+        # one real Cache hammered with pinned/unpinned lookups under rotation + expiry (race build)
+        for i in range(2 if t == "quick" else 6):
+            tr = os.path.join(d, f"stress-{i}.ndjson")
+            rr = run_vh(vhr, ["cache-stress", "-n", "3000" if t == "quick" else "20000", "-c", "8", "-trace", tr],
+                        env=dict(RACE_ENV, VERIF_TMP=d, VERIF_SEED=str(seed() * 10 + i)), timeout=900)
+            err = rr.stderr.decode(errors="replace")
+            if rr.returncode == 66 or "WARNING: DATA RACE" in err:
+                frames = re.findall(r"\n\s+(github\.com/sassoftware/relic/v8/\S+?)\(\)", err)
+                run.violation({"engine": "race-detector", "site": frames[0] if frames else "?"},
+                              f"cache-stress: data race in {frames[0] if frames else '?'}", {"report": err[:6000]})
+                continue
+            o = parse_vh_json(rr, "cache-stress")
+            absorb(run, o)
+            evs = [json.loads(l) for l in open(tr)]
+            lines = [{"ev": e["ev"], "name": e.get("name", ""), "want": e.get("want", ""), "id": e.get("id", ""), "ok": bool(e.get("ok", False)), "c": "stress"} for e in evs]
+            validate_cache(run, lines, f"cache-stress-{i}")
         for label, (o, data) in results.items():
             if o is None:
                 continue
